@@ -347,9 +347,9 @@ def tokens_equal(a, b, tol=None, scale=None):
     return False
 
 
-def lines_equal(m, i, tol=None):
+def lines_equal(m, i, tol=None, scale=None):
     tm, ti = m.split(), i.split()
-    return len(tm) == len(ti) and all(tokens_equal(x, y, tol) for x, y in zip(tm, ti))
+    return len(tm) == len(ti) and all(tokens_equal(x, y, tol, scale) for x, y in zip(tm, ti))
 
 
 # ------------------------------------------------------------------------------------------------
@@ -454,7 +454,7 @@ class Report:
 
 
 def compare_cases(rep, family, cases, tol=None, release=False, nontrivial=None, classify=None, spec=True,
-                  both_builds=False):
+                  both_builds=False, scale_fn=None):
     """Run the same case lines through the model and the implementation, compare, record failures.
     `spec`: the model's output on these cases is the value a proved theorem mandates, so a
     disagreement is itself a failing input for the property."""
@@ -474,7 +474,7 @@ def compare_cases(rep, family, cases, tol=None, release=False, nontrivial=None, 
             continue
         for rel in builds:
             i = outs[rel][idx]
-            if not lines_equal(m, i, tol):
+            if not lines_equal(m, i, tol, scale_fn(c) if scale_fn else None):
                 cls = classify(c, m, i) if classify else family
                 rep.fail(kind="model-impl-disagreement", cls=cls, case=c, expected=m, observed=i,
                          build="release" if rel else "debug",
@@ -508,3 +508,53 @@ def standard_main(pid, generate_and_check, argv, rule, level="proof", needs_cli=
     if ok:
         generate_and_check(rep, tier, seed)
     return rep.finish(level=level, rule=rule)
+
+
+# ------------------------------------------------------------------------------------------------
+# running the real `sfs` binary
+
+def run_cli_many(jobs, release=False, timeout=60):
+    """jobs: list of (argv_without_binary, stdin_bytes). Returns list of (rc, stdout_bytes, stderr_bytes)."""
+    from concurrent.futures import ThreadPoolExecutor
+    binary = sfs_path(release)
+
+    def one(job):
+        argv, data = job
+        try:
+            p = subprocess.run([binary] + list(argv), input=data, capture_output=True, timeout=timeout, env=ENV)
+            return (p.returncode, p.stdout, p.stderr)
+        except subprocess.TimeoutExpired:
+            return (-999, b"", b"timeout")
+    with ThreadPoolExecutor(max_workers=NPROC) as ex:
+        return list(ex.map(one, jobs))
+
+
+def is_panic(rc, stderr):
+    return rc == 101 or rc < 0 or b"panicked at" in stderr
+
+
+def parse_text_spectrum(out):
+    """parse `#SHAPE=<a/b>\\nv v v\\n` -> (shape, [token...]) or None"""
+    try:
+        s = out.decode()
+        lines = s.split("\n")
+        m = re.fullmatch(r"#SHAPE=<([0-9/]+)>", lines[0])
+        if not m or len(lines) < 2:
+            return None
+        return [int(x) for x in m.group(1).split("/")], lines[1].split(" ") if lines[1] != "" else []
+    except Exception:
+        return None
+
+
+def text_spectrum(shape, values):
+    return ("#SHAPE=<%s>\n%s\n" % ("/".join(map(str, shape)), " ".join(values))).encode()
+
+
+def frac_to_dec(tok):
+    """decimal token of a text spectrum -> Fraction / 'nan' / 'inf' / '-inf'"""
+    t = tok.strip()
+    if t.lower() == "nan":
+        return "nan"
+    if t.lower() in ("inf", "-inf"):
+        return t.lower()
+    return Fraction(t)
